@@ -10,10 +10,10 @@ import numpy as np
 
 from .. import history
 from ..battery import call, _Raised
-from ..models import KEYS, Model, State, Flex, sorted_key
+from ..models import KEYS, Model, State, Flex, sorted_key, weq
 from ..observe import observe
 
-TIERS = {"quick": 900, "thorough": 15000}
+TIERS = {"quick": 900, "thorough": 50000}
 WATCHDOG_S = {"quick": 1200, "thorough": 9000}
 RULE = ("case kinds by index mod 3: 0,1 = filter_hypergraph on the end state of a generated history (H, D, T, M round robin) with "
         "node/hyperedge metadata drawn from a small attribute pool; criteria dictionaries with 1-2 attributes, allowed-value "
@@ -143,7 +143,7 @@ def filter_case(ctx, rng, idx):
             return "unexpected-hyperedge"
         for k, al in alts.items():
             if k in F.edges:
-                if not any(F.edges[k][0] == a[0] and F.edges[k][1] == a[1] for a in al):
+                if not any(weq(F.edges[k][0], a[0]) and F.edges[k][1] == a[1] for a in al):  # merged weights are float sums: order of addition is free
                     return "surviving-hyperedge-weight-or-metadata-changed"
                 if not survive_e(F.edges[k][1]):
                     return "hyperedge-that-fails-the-criteria-survived"
